@@ -67,10 +67,15 @@ def _record_arg(body, t):
 def awaited_local_calls(body, names, blocks=None):
     """[(call_bb, term, Await)] of awaited calls to one of `names`"""
     out = []
-    for a in awaits(body):
+    for a in list(awaits(body)) + list(joined_awaits(body)):
         if a.producer and callee_base(a.producer[1]) in names and (blocks is None or a.producer[0] in blocks):
             out.append((a.producer[0], a.producer[1], a))
     return out
+
+
+def is_result_of(o, a):
+    """origin o is the result of Await a (for a future awaited through a join combinator: the result of the join)"""
+    return o[0] == "await" and (o[3] is a or (a.join is not None and o[3] is a.join))
 
 
 def comparison_predicates(ctx, R):
@@ -328,6 +333,22 @@ def hash_fns(ctx):
     return [ctx.r.fn_of(b).name for b in ctx.f.user_bodies() if b.coroutine and any(_is_hasher_write(t) for _, t in b.calls())]
 
 
+def per_file_blocks(ctx, b):
+    """the per-file comparison of the file-state comparison `b`: async blocks / local async fns returning bool, reachable from b without crossing a spawn, that
+    await the modification-time function (the closure handed to `map`, or a helper applied to each entry)"""
+    f = ctx.f
+    mt = set(mtime_fns(ctx))
+    skip = {ctx.r.fn_of(x).name for x in all_fns(ctx) + both_fns(ctx)} | {x.name for x in all_fns(ctx) + both_fns(ctx)}
+    out = []
+    for x in sorted(f.cg.reach([b.name], cross_spawn=False)):
+        if x == b.name or x not in f.bodies or x in skip:
+            continue
+        xb = f.bodies[x]
+        if xb.coroutine and xb.ret == "bool" and any(a.callee in mt for a in awaits(f.view(x))):
+            out.append(x)
+    return out
+
+
 @rule("C02.FS-EQ", ["C02"], """the file-state comparison returns true only if the number of listed files equals the number of recorded files and every
       listed file is recorded with an equal modification time or an equal content hash""", "K2", floor=3)
 def fs_eq(ctx):
@@ -353,14 +374,24 @@ def fs_eq(ctx):
                   detail=f"{n} paths, {len(tps)} can return true")
         ctx.check(not bad_all, f"{short(b.name)}/all-files", [b.loc()], "a true-returning path does not return the result of `all` over the per-file comparisons")
         # the per-file async block: closure handed to map() feeding `all`
-        per_file = [x for x in f.cg.reach([b.name], cross_spawn=False) if x != b.name and x.startswith(b.name + "::") and f.bodies[x].coroutine and f.bodies[x].ret == "bool"]
+        per_file = per_file_blocks(ctx, b)
         ctx.need(per_file, "per-file comparison block")
         for pfn in per_file:
             pb = f.view(pfn)
             tps2, n2 = true_paths(pb)
             bad = []
+            # the file is paired with its record: looked up in the record inside the block (`get` -> Some), or - when the block is a function applied to each
+            # *recorded* entry - applied only to entries found in the current listing (`contains` true at its call site)
+            paired_at_site = False
+            if not pfn.startswith(b.name + "::"):
+                fn_name = ctx.r.fn_of(f.bodies[pfn]).name
+                def listed(d):
+                    return d[0] == "call" and re.search(r"::(contains|contains_key)$", d[1]) is not None
+                G = guard_region(b, listed, True)
+                sites_ = [cb for cb, ct in b.calls() if callee_base(ct) == fn_name]
+                paired_at_site = bool(sites_) and all(cb in G for cb in sites_)
             for (p, facts, ro) in tps2:
-                some = has_fact(facts, "variant", ("Some",), is_call_of(lambda c: c.endswith("::get")))
+                some = paired_at_site or has_fact(facts, "variant", ("Some",), is_call_of(lambda c: c.endswith("::get")))
                 mt_ok = has_fact(facts, "variant", ("Ok",), is_await_of(lambda c: c in mt))
                 def dur_eq(o):
                     return o[0] == "call" and o[1].endswith("PartialEq>::eq") and "Duration" in o[3]["callee"]["declared"]
@@ -381,7 +412,7 @@ def sufficient_paths(ctx):
     f = ctx.f
     mt, hs = set(mtime_fns(ctx)), set(hash_fns(ctx))
     for b in file_state_eq_bodies(ctx):
-        per_file = [x for x in f.cg.reach([b.name], cross_spawn=False) if x != b.name and x.startswith(b.name + "::") and f.bodies[x].coroutine and f.bodies[x].ret == "bool"]
+        per_file = per_file_blocks(ctx, b)
         for pfn in per_file:
             pb = f.view(pfn)
             tps2, n2 = true_paths(pb)
@@ -686,7 +717,7 @@ def delete_before_script(ctx):
         # the Continue edge of the `?` applied to the awaited result dominates the script await
         for (tb, sb, ce, be) in try_edges(R):
             o = origins(R, operand_local(R.term(tb)["args"][0])) if R.term(tb)["args"] else []
-            if origin_matches(o, lambda x: x[0] == "await" and x[3] is a) and ce is not None and sa.into_bb in R.dominated_by_edge(ce):
+            if origin_matches(o, lambda x: is_result_of(x, a)) and ce is not None and sa.into_bb in R.dominated_by_edge(ce):
                 good.append(cbb)
     ctx.check(bool(good), f"{short(R.name)}/delete-then-script", [site(R, g) for g in good] or [site(R, sa.into_bb)],
               "the script can start while the old record is still in place (no `?`-checked awaited delete dominates the script): a crash during the script would leave the target recorded as done")
@@ -700,11 +731,24 @@ def delete_errors_propagate(ctx):
     sa = script_await(ctx, R)
     used = {callee_base(t) for (cbb, t, a) in awaited_local_calls(R, set(dels)) if R.dominates(cbb, sa.into_bb)}   # the delete the runner performs before the script
     ctx.need(used, "state delete awaited by the incremental runner")
+    # the record is the file the reader opens: with several state path functions (a scratch file next to the record) only removals of that one count
+    spf = {x.name for x in ctx.r.state_path_fns()}
+    record_fns = set()
+    if len(spf) > 1:
+        try:
+            readers, _ = state_read_fns(ctx)
+        except AnchorLost:
+            readers = []
+        for x in ctx.f.user_bodies():
+            if ctx.r.outer_fn(x).name in readers or ctx.r.fn_of(ctx.r.outer_fn(x)).name in readers:
+                record_fns |= {callee_base(ct) for _, ct in x.calls()} & spf
     n = 0
     for (b, bb, t) in sites:
         raw = ctx.f.bodies[b.origin(bb)]
         if ctx.r.fn_of(ctx.r.outer_fn(raw)).name not in used:
             continue   # another removal of the state file (e.g. a best-effort clean-up of a partial write in the saver) is not the discard-before-build
+        if record_fns and t["args"] and not (atom_callres(b.prov.operand_atoms(t["args"][0])) & record_fns):
+            continue   # the removal of a scratch file that is never read back
         rbb = b.blocks[bb].get("orig_id", bb) if b.origin(bb) != b.name else bb
         rt = raw.term(rbb)
         if rt["k"] != "call" or rt.get("dest") is None:
@@ -924,7 +968,7 @@ def snapshot_order(ctx):
     # snapshot computations: awaited local calls whose args derive from the target_input parameter and whose result flows into the saved record
     def input_snapshots():
         out = []
-        for a in awaits(R):
+        for a in list(awaits(R)) + list(joined_awaits(R)):
             if not a.producer or a.callee not in f.bodies:
                 continue
             t = a.producer[1]
@@ -1025,6 +1069,13 @@ def absent_side_equal(ctx):
                 continue
             fields = place_fields(l[3])
             o = edge_origin(b, e)
+            if fields and fields[0].isdigit():
+                # `match (recorded, declared) { (_, None) => true, .. }`: the element of the tuple that is tested, not the tuple as a whole
+                o = []
+                for kind, x, pb in b.prov.direct_producers(l[3]["local"]):
+                    if kind == "agg" and int(fields[0]) < len(x["rv"]["ops"]):
+                        el = operand_local(x["rv"]["ops"][int(fields[0])])
+                        o += origins(b, el) if el is not None else []
             if not (any(nm in fields for nm in opt_params) or origin_matches(o, lambda x: x[0] == "field" and any(nm in x[1] for nm in opt_params))):
                 continue
             n += 1
